@@ -33,12 +33,12 @@ PROPS = {
     "C08": dict(profiles=[P("metadata", 3000, 160000)], fields=["status", "diff", "xf", "logs"], assumptions=[E_ENV]),
     "C09": dict(profiles=[P("transfers", 3000, 300000), P("gates", 1000, 100000)], fields=["status", "diff"],
                 assumptions=[E_ENV]),
-    "C10": dict(profiles=[P("transfers", 3000, 300000), P("parsers", 3000, 400000)], fields=["status", "xf", "diff"],
+    "C10": dict(profiles=[P("transfers", 3000, 300000), P("parsers", 3000, 400000), P("metadata", 1500, 80000)], fields=["status", "xf", "diff"],
                 assumptions=[E_ENV, "attached function names are non-empty and contain no '@' (C12 carve-out)"]),
     "C11": dict(profiles=[P("adversarial", 3000, 600000, seeds_quick=2), P("transfers", 1000, 100000)], fields=["status", "rc"],
                 assumptions=["vmInput and CallValue are non-nil (the node always sets them)", E_ENV,
                              "real allocation size is a runtime quantity the model cannot exhibit (partial): the model bounds every allocation by the argument count"]),
-    "C12": dict(profiles=[P("parsers", 20000, 400000)], fields=["status"], strict=True),
+    "C12": dict(profiles=[P("parsers", 20000, 400000), P("nonces", 1000, 60000)], fields=["status", "xf"], strict=True),
     "C13": dict(profiles=[P("determinism", 2000, 200000)], fields=["status", "gas", "rc", "ret", "logs", "xf", "oa", "diff"],
                 assumptions=["runtime aspects (map iteration order, goroutines, slice aliasing) are outside any Lean model (partial): decided by run-vs-run comparison on the implementation plus the regenerated zero-spare-capacity fact"]),
     "C14": dict(profiles=[P("codec", 20000, 400000)], fields=["status"], strict=True),
